@@ -3,11 +3,12 @@
 
    All theorems quantify over every option list: any option types, any data lengths (bytes are N, so
    0..253 is included), duplicates, any order; and over every configuration and previous peer state.
-   Variant [repaired] is what /repo HEAD (e76425b) implements for pkg/ppp, internal/pppoe and internal/l2tp,
+   Variant [repaired] is what /repo HEAD (1d4c0cb) implements for pkg/ppp, internal/pppoe and internal/l2tp,
    no finding is open.  [defective], [lns_found], [def_restore], [def_rguard] are the behaviours before the fixes
    54fb851 / 95b0af2 / bc32486 / ce9ad2f / 8205ad2 / 7efc399 and only occur in historical _refuted witnesses.
    Since e9950ea a PPPoE session whose LCP leaves Opened after startNCP is torn down (owner [Ended]): on PPPoE a
-   re-authentication of a started session no longer exists; it still does on the LNS owner.  The IPCP,
+   re-authentication of a started session no longer exists; on the LNS owner it does, and since c99b5bd its
+   onLCPDown takes the NCPs down first (the NCP negotiation restarts from Starting).  The IPCP,
    IPv6CP, magic-number, wire-format and reply theorems do not depend on the variant at all. *)
 From OV Require Import Common.Base C06.Model C06.Proofs.
 
@@ -402,13 +403,14 @@ Qed.
 Print Assumptions C06_adopted_stale_refuted.
 
 (* Historical, fixed in bc32486 / ce9ad2f (2): an unusable AAA address (0.0.0.0, IPv6 literal) was kept by
-   extractIPFromAttributes; on a re-authentication (owner that keeps the session) it wipes the address of a
-   session whose IPCP is open with A assigned. *)
+   extractIPFromAttributes; on a re-authentication (owner that keeps the session) it replaces the valid
+   address A of the session, startNCP then finds nothing usable and IPv4 stays down although A is still
+   assigned in the IPCP object. *)
 Theorem C06_aaa_unusable_refuted :
   exists aaa es,
   let fl := mkflags false false true false false false false in
   let s := sess_run fl (sess_start fl LNS aaa (mkorc None true)) es in
-  s_open s = true /\ s_addr s = None /\ ic_assigned (s_cfg s) = Some [10;0;0;5]%N.
+  s_open s = false /\ s_addr s = None /\ ic_assigned (s_cfg s) = Some [10;0;0;5]%N.
 Proof.
   exists (Some (v4prefix ++ [10;0;0;5])%N),
          [EvReq 1 [3;6;10;0;0;5]%N; EvAck; EvReauth (Some (v4prefix ++ [0;0;0;0])%N) (mkorc None true)].
